@@ -22,6 +22,10 @@ func init() {
 	kinds["lru"] = kindT{lruCase, lruReplay}
 }
 
+// genOrdinal numbers the cases of a run across its shards (shard seeds are consecutive): kinds that
+// sweep a small domain systematically take their position from it
+var genOrdinal uint64
+
 func main() {
 	if len(os.Args) < 2 {
 		fmt.Fprintln(os.Stderr, "usage: sfharness gen|replay ...")
@@ -45,6 +49,7 @@ func main() {
 		}
 		for i := start; i < count; i++ {
 			r := newRng(seed*1000003 + uint64(i))
+			genOrdinal = seed*uint64(count) + uint64(i)
 			line := k.gen(r)
 			fmt.Fprintln(out, line)
 			if hungGoroutines > 0 {
